@@ -115,7 +115,7 @@ def forbidden_tokens():
             src = open(path).read()
             src = re.sub(r"/-.*?-/", lambda m: "\n" * m.group(0).count("\n"), src, flags=re.S)
             for i, line in enumerate(src.split("\n"), 1):
-                code = line.split("--")[0]
+                code = re.sub(r'"(\\.|[^"\\])*"', '""', line).split("--")[0]  # string literals cannot hide an escape
                 if FORBIDDEN.search(code):
                     hits.append("%s:%d: %s" % (os.path.relpath(path, VERIF), i, line.strip()))
     return hits
@@ -263,6 +263,7 @@ class Result:
         self.samples = []
         self.failing = []        # (oracle, input, verdict): property conclusion false on the implementation's output
         self.diffs = []          # (input, verdict): model and implementation disagree (in domain)
+        self.explained_elsewhere = {}  # finding id of another property -> disagreements it explains
         self.broken = []         # names of proof obligations / ties that no longer check
         self.obligations = []    # (name, discharged: bool, detail)
         self.known_hits = collections.OrderedDict()
@@ -414,7 +415,11 @@ def run_check(spec, res, workdir):
             analyze(spec, res, inp, ver)
     # a broken tie is the trigger for a wider search for a concrete failing input: the thorough
     # runs (other seeds, more cases), looking only at the oracles on the implementation's outputs
-    tie_broken = bool(res.diffs) or any(not ok for n, ok, _ in res.obligations if n.startswith(("facts:", "lean:", "theorem:")))
+    def _explained(inp, ver):
+        from registry import SIGNATURES
+        return any(SIGNATURES.get(k.get("signature")) and SIGNATURES[k["signature"]]("corr", inp, ver)
+                   for k in load_known() if k.get("status") == "known")
+    tie_broken = any(not _explained(i, v) for i, v in res.diffs) or any(not ok for n, ok, _ in res.obligations if n.startswith(("facts:", "lean:", "theorem:")))
     if tie_broken and not res.failing and tier == "quick" and spec.get("runs", {}).get("thorough"):
         t_search = time.time()
         for i, run in enumerate(spec["runs"]["thorough"]):
@@ -530,6 +535,10 @@ def classify_known(spec, res):
         else:
             new.append((oracle, inp, ver))
     # diffs explained by a known finding (the model is a model of the documented behaviour)
+    # A disagreement says the model does not list what the implementation did; a recorded finding of
+    # *another* property explains it just as well (e.g. the matcher's order dependence, C03, seen by a
+    # run that belongs to C07): it is counted, not printed as a finding of this property.
+    others = [k for k in load_known() if k.get("property") != res.pid and k.get("status") == "known"]
     newdiffs = []
     for inp, ver in res.diffs:
         hit = None
@@ -541,6 +550,14 @@ def classify_known(spec, res):
         if hit:
             res.known_hits.setdefault(hit["id"], [hit, 0, inp])
             res.known_hits[hit["id"]][1] += 1
+            continue
+        for k in others:
+            fn = SIGNATURES.get(k["signature"])
+            if fn and fn("corr", inp, ver):
+                hit = k
+                break
+        if hit:
+            res.explained_elsewhere[hit["id"]] = res.explained_elsewhere.get(hit["id"], 0) + 1
         else:
             newdiffs.append((inp, ver))
     return known, new, newdiffs
@@ -610,6 +627,7 @@ def write_evidence(spec, res, obligations, violations, t0):
         "arm_histogram": dict(res.feat),
         "exhaustive": bool(res.exhaustive),
         "disagreements": len(res.diffs),
+        "disagreements_explained_by_findings_of_other_properties": res.explained_elsewhere,
         "failing_inputs": len(res.failing),
         "known_findings_reproduced": {k: v[1] for k, v in res.known_hits.items()},
         "traces_validated_against_impl": res.traces_validated,
